@@ -33,7 +33,8 @@ THEOREMS = [
     "C16_generated_dataflow", "C16_islice", "C16_spec", "C16_written", "C16_identity", "C16_count_zero_unlimited",
     "C16_mode_independent", "C16_engine_flag", "C16_engine_independent", "C16_abort_flushed", "C16_failure_isolated",
     "C16_record_stream", "C16_uri_carries_query", "C16_writer_uri_verbatim", "C16_unparenthesised_join_refuted",
-    "C16_split_uri", "C16_split_uri_parameters", "C16_split_uri_plain", "C16_hyp_satisfiable",
+    "C16_split_uri", "C16_split_uri_parameters", "C16_split_uri_plain", "C16_multi_timestamp_fields",
+    "C16_multi_timestamp_metadata_partial", "C16_multi_timestamp_metadata_refuted", "C16_hyp_satisfiable",
 ]
 
 RESERVED = ["_source", "_classification", "_generated", "_version"]
@@ -328,7 +329,7 @@ def json_form(t, x):
         _packer = JsonRecordPacker()
     if t == "boolean" and isinstance(x, int):
         x = bool(x)
-    return json.loads(json.dumps(x, default=_packer.pack_obj))
+    return json.loads(json.dumps(x, default=_packer.pack_obj), object_pairs_hook=lambda p: p)
 
 
 def json_doc(v):
@@ -597,13 +598,21 @@ def compare_text(exp, text, fmt, st):
     for e in exp:
         if fmt:
             d = _Missing((k, slot_value(e, k)) for k in e["names"] + RESERVED)
-            want.append(fmt.format_map(d))
+            alt = None
+            if e.get("expanded") and "_generated" not in fmt:
+                d2 = _Missing(d)
+                d2.update(_source=None, _classification=None)
+                alt = fmt.format_map(d2)
+            want.append((fmt.format_map(d), alt))
         else:
-            want.append("<%s %s>" % (e["name"], " ".join("%s=%r" % (k, _get(e, k)) for k in e["names"])))
+            want.append(("<%s %s>" % (e["name"], " ".join("%s=%r" % (k, _get(e, k)) for k in e["names"])), None))
     if len(lines) != len(want):
         raise Mismatch("%d text lines in the output, expected %d" % (len(lines), len(want)))
-    for i, (a, b) in enumerate(zip(lines, want)):
+    for i, (a, (b, alt)) in enumerate(zip(lines, want)):
         if a != b:
+            if alt is not None and a == alt:
+                st["meta_gap"] = st.get("meta_gap", 0) + 1
+                continue
             raise Mismatch("text line %d is %r, expected %r" % (i, a, b))
 
 
@@ -669,6 +678,17 @@ def check_output(ds, opt, res, outdir, sel_views, written, st):
         if opt.get("split"):
             parts = split_parts(outdir, out, opt.get("suffix_length") or 2)
             got = []
+            if out == "w:jsonl":
+                # JSON text level (reading JSON back into records is C14's subject)
+                alldocs = []
+                for i, p in enumerate(parts):
+                    docs = [json.loads(ln, object_pairs_hook=lambda pr: pr) for ln in open(p, encoding="utf-8").read().split("\n") if ln]
+                    nrec = len([d for d in docs if dict(d).get("_type") == "record"])
+                    if (i < len(parts) - 1 and nrec != opt["split"]) or nrec > opt["split"]:
+                        raise Mismatch("split part %d holds %d records, expected %d" % (i, nrec, opt["split"]))
+                    alldocs.extend(docs)
+                compare_json_docs(written, alldocs, st, file_mode=True)
+                return
             for i, p in enumerate(parts):
                 try:
                     vs = read_back(p)
@@ -757,6 +777,24 @@ Definition chk (srcs : list (source N)) (sel : list N) (tbl : list (N * nat)) (o
   && Nat.eqb (processed N (memN sel) (memN sel) (fun _ _ r => r) (fun _ _ _ r => r) rdump_facts o srcs) nproc
   && (if uri_known then oseqb (final_uri rdump_facts o) impl_uri else true)
   && match impl_compiled with Some b => Bool.eqb (uses_compiled rdump_facts o) b | None => true end.
+(* --multi-timestamp on one concrete record: names of the fields, ts_description, _source, _classification of
+   every record the implementation wrote for it *)
+Fixpoint number (i : N) (fs : list (string * bool)) : list cfield :=
+  match fs with [] => [] | (n, d) :: t => {| cf_name := n; cf_dt := d; cf_val := VId i |} :: number (N.succ i) t end.
+Definition mkc (name : string) (fs : list (string * bool)) (src cls : option string) : crec :=
+  {| c_name := name; c_fields := number 0 fs; c_meta := {| m_source := src; m_class := cls; m_generated := 1 |} |}.
+Definition summ (r : crec) : list string * string * option string * option string :=
+  (map cf_name (c_fields r),
+   match c_fields r with _ :: {| cf_val := VText s |} :: _ => s | _ => EmptyString end,
+   m_source (c_meta r), m_class (c_meta r)).
+Fixpoint lseqb (a b : list string) : bool :=
+  match a, b with [], [] => true | x :: a', y :: b' => String.eqb x y && lseqb a' b' | _, _ => false end.
+Definition summ_eqb (a b : list string * string * option string * option string) : bool :=
+  match a, b with (n1, d1, s1, c1), (n2, d2, s2, c2) => lseqb n1 n2 && String.eqb d1 d2 && oseqb s1 s2 && oseqb c1 c2 end.
+Fixpoint all2 {A : Type} (f : A -> A -> bool) (a b : list A) : bool :=
+  match a, b with [], [] => true | x :: a', y :: b' => f x y && all2 f a' b' | _, _ => false end.
+Definition xchk (r : crec) (impl : list (list string * string * option string * option string)) : bool :=
+  all2 summ_eqb (map summ (expand_impl 0 r)) impl.
 """
 
 
@@ -782,8 +820,8 @@ def coq_case(ds, src_names, opt, sel_views, written, res, writer, impl_ids):
     tbl = []
     if opt.get("multi"):
         cnt = {}
-        for w in written:
-            cnt[w["uid"]] = cnt.get(w["uid"], 0) + 1
+        for e in sel_views:
+            cnt[e["uid"]] = max(1, len([1 for t, _ in e["fields"] if t == "datetime"]))
         tbl = ["(%d, %d%%nat)" % (u, k) for u, k in cnt.items() if k != 1]
     out = opt.get("out", "m:text")
     mode = None if out.startswith("w:") or out == "m:text" else out[2:]
@@ -1028,6 +1066,44 @@ def plan(ctx, ds, rnd):
     return cases
 
 
+def multi_cases(ctx, ds, outdir, coq_cases, metas):
+    """model/Rdump.v expand_impl against iter_timestamped_records as rdump uses it, record by record"""
+    for rsrc in (None, "SRC2"):
+        opt = dict(multi=True, out="w:records")
+        if rsrc:
+            opt.update(rsrc=rsrc, rcls="top")
+        shutil.rmtree(outdir, ignore_errors=True)
+        os.makedirs(outdir)
+        argv, writer = build_argv(ds, ds.good, opt, outdir)
+        sel_views, written = ref_pipeline(ds, ds.good, opt)
+        res = run_main(argv)
+        res.pop("tw", None)
+        try:
+            got = read_back(out_path("w:records", outdir))
+        except Exception:  # noqa
+            return dict(kind="rdump-case", dataset=ds.idx, dataset_seed=ds.seed, sources=list(ds.good), opt=opt, argv=argv,
+                        source_kinds=["good"] * len(ds.good), problem="--multi-timestamp output unreadable")
+        pos = 0
+        for e in sel_views[:25]:
+            k = max(1, len([1 for t, _ in e["fields"] if t == "datetime"]))
+            outs = got[pos:pos + k]
+            pos += k
+            impl = []
+            for g in outs:
+                expanded = g["names"][:2] == ["ts", "ts_description"] and e["names"][:2] != ["ts", "ts_description"]
+                impl.append("(%s, %s, %s, %s)" % (clist([cstr(n) for n in g["names"]]),
+                                                  cstr(str(_get(g, "ts_description")) if expanded else ""),
+                                                  costr(g["meta"]["_source"]), costr(g["meta"]["_classification"])))
+            r = "(mkc %s %s %s %s)" % (cstr(e["name"]), clist(["(%s, %s)" % (cstr(n), cbool(t == "datetime")) for t, n in e["fields"]]),
+                                       costr(e["meta"]["_source"]), costr(e["meta"]["_classification"]))
+            coq_cases.append("xchk %s %s" % (r, clist(impl)))
+            metas.append(dict(kind="rdump-case", dataset=ds.idx, dataset_seed=ds.seed, sources=list(ds.good), opt=opt,
+                              argv=[a.replace(str(ctx.work), "{W}") for a in argv], source_kinds=["good"] * len(ds.good),
+                              multi_timestamp_record=e["uid"]))
+            ctx.count_case(("multi-timestamp-record", ds.idx, e["uid"], rsrc))
+    return None
+
+
 def nontrivial(ds, srcs, opt):
     return len(opt) > 1 or any(n in ds.faults for n in srcs)
 
@@ -1045,6 +1121,12 @@ def sweep(ctx, coq=True, first_only=True):
             opt = {k: v for k, v in opt.items() if v is not None}
             ctx.count_case(canonical([ds.sources[n]["kind"] for n in srcs], opt) + (i,), nontrivial=nontrivial(ds, srcs, opt))
             bad = run_one(ctx, ds, srcs, opt, outdir, st, coq_cases, metas)
+            if bad:
+                problems.append(bad)
+                if first_only:
+                    return coq_cases, metas, problems, st
+        if coq:
+            bad = multi_cases(ctx, ds, outdir, coq_cases, metas)
             if bad:
                 problems.append(bad)
                 if first_only:
